@@ -4,6 +4,7 @@
 package main
 
 import (
+	"net/url"
 	"fmt"
 	"reflect"
 	"strings"
@@ -69,6 +70,20 @@ type Groups struct {
 	N *Leaf          `valid:"botheq=10,either=11"`
 }
 
+// NumGroups: botheq / either groups whose members are numbers of different families and widths.
+type NumGroups struct {
+	A int32   `valid:"botheq=1"`
+	B uint32  `valid:"botheq=1"`
+	C float64 `valid:"botheq=2,either=6"`
+	D int64   `valid:"botheq=2,either=6"`
+	E uint64  `valid:"botheq=3"`
+	F int     `valid:"botheq=3"`
+	G uint8   `valid:"botheq=4"`
+	H float32 `valid:"botheq=4"`
+	I bool    `valid:"botheq=5"`
+	J string  `valid:"botheq=5"`
+}
+
 func groupShapes() []shaped {
 	sl := func() interface{} { return []int{1} }
 	mp := func() interface{} { return map[string]interface{}{"a": []int{1}} }
@@ -88,6 +103,12 @@ func groupShapes() []shaped {
 		{"Groups{K,L}", &Groups{K: f, L: f}},
 		{"Groups{M,N}", &Groups{M: &Leaf{"x", 1}, N: &Leaf{"x", 1}}},
 		{"[]Groups", []Groups{{A: sl(), B: sl()}, {E: XI{mp()}, F: XI{mp()}}}},
+		{"NumGroups{zero}", &NumGroups{}},
+		{"NumGroups{all 1}", &NumGroups{A: 1, B: 1, C: 1, D: 1, E: 1, F: 1, G: 1, H: 1, I: true, J: "1"}},
+		{"NumGroups{different}", &NumGroups{A: -1, B: 1, C: 0.5, D: 2, E: 1 << 63, F: -1, G: 255, H: 255.5, I: true, J: "true"}},
+		{"[]NumGroups", []NumGroups{{A: 1, B: 1}, {C: 2, D: 2, E: 3, F: 3}}},
+		{"map number groups via Map", map[string]interface{}{"k": int32(1), "j": uint32(1)}},
+		{"map number groups via Map (float, uint64)", map[string]interface{}{"k": 1.0, "j": uint64(1)}},
 		{"map groups via Map", map[string]interface{}{"k": sl(), "j": sl()}},
 		{"map groups via Map (maps)", map[string]interface{}{"k": mp(), "j": mp()}},
 		{"map[string][]int groups", map[string][]int{"k": {1}, "j": {1}}},
@@ -482,6 +503,31 @@ func run(c *runner.Ctx) {
 	for _, unit := range []string{"a", "\x1a'", "中", "\xff", "\"", "1", "1,", " ", "\\", "{\"a\":"} {
 		for _, n := range []int{100, 255, 256, 257, 258, 300, 513, 4096, 70000} {
 			tryVal(strings.Repeat(unit, n/len(unit)+1)[:n])
+		}
+	}
+	// long values under size rules whose bounds are negative, zero or extreme (the clause may abbreviate the input)
+	sizeRules := []string{"le=-1", "lt=-3", "to=-5~-1", "oto=-5~-1|m", "ge=-1", "gt=-300", "le=0", "to=0~0", "eq=-1", "noeq=-256", "le=9223372036854775807", "to=-9223372036854775808~-1", "to=300~100", "oto=257~256"}
+	for _, unit := range []string{"a", "中", "\xff", "'", "😀"} {
+		for _, n := range []int{1, 2, 255, 256, 257, 258, 300, 513, 1025, 70000} {
+			v := strings.Repeat(unit, n/len(unit)+1)[:n]
+			if !c.Take() {
+				continue
+			}
+			for _, r := range sizeRules {
+				pan, msg, site := runner.Guard(func() {
+					_ = valid.Var(v, r)
+					_ = valid.Struct(&Box{v}, valid.RM{"F": r})
+					_ = valid.Map(map[string]string{"k": v}, valid.RM{"k": r})
+					_ = valid.Url("http://h/p?k="+url.QueryEscape(v), valid.RM{"k": r})
+					_ = valid.Var([]byte(v), r)
+				})
+				c.AddTransitions(5)
+				if pan {
+					c.Outcome("panic")
+					c.Violation(fmt.Sprintf("panic@%s/long-value/%s", site, r), map[string]interface{}{"rule": r, "value_unit": fmt.Sprintf("%q", unit), "value_bytes": n, "panic": msg})
+				}
+			}
+			c.Done(true, 0)
 		}
 	}
 	for _, seed := range []string{`{"a":[1,"x\n"]}`, "it's a \\ \"q\"\t\r\n\x00", "2021-09-28 10:00:00", "1,2,3", "a@b.cn", "1.2.3.4", "::1"} {
